@@ -311,7 +311,15 @@ def pred_once(prog: Program) -> RuleResult:
         for x in walk_local(h.node):
             if isinstance(x, ast.Assign) and len(x.targets) == 1 and isinstance(x.targets[0], ast.Name):
                 single.setdefault(x.targets[0].id, []).append(x.value)
-        for lp in [x for x in walk_local(h.node) if isinstance(x, ast.For)]:
+        class _CompLoop:
+            """a comprehension clause seen as a loop: `for t in it if c` inside a generator expression / comprehension"""
+            def __init__(self, comp, owner):
+                self.iter, self.target, self.lineno, self.col_offset = comp.iter, comp.target, owner.lineno, owner.col_offset
+                self._fields = ()
+                self.parts = [owner]
+        loops = [x for x in walk_local(h.node) if isinstance(x, ast.For)]
+        comp_loops = [(_CompLoop(g_, x), x) for x in walk_local(h.node) if isinstance(x, (ast.GeneratorExp, ast.ListComp, ast.SetComp, ast.DictComp)) for g_ in x.generators]
+        for lp, scope in [(x, x) for x in loops] + comp_loops:
             it = lp.iter
             if isinstance(it, ast.Name) and len(single.get(it.id, [])) == 1:
                 it = single[it.id][0]
@@ -322,7 +330,7 @@ def pred_once(prog: Program) -> RuleResult:
             if not (isinstance(it, ast.Call) and call_name(it) == "_evaluate__"):
                 why = f"the values are taken from {src(it)[:60]}, not from the evaluation itself"
             tv = {x.id for x in ast.walk(lp.target) if isinstance(x, ast.Name)}
-            for t in [x for x in ast.walk(lp) if isinstance(x, (ast.If, ast.IfExp, ast.comprehension))]:
+            for t in [x for x in ast.walk(scope) if isinstance(x, (ast.If, ast.IfExp, ast.comprehension))]:
                 tests = [t.test] if not isinstance(t, ast.comprehension) else t.ifs
                 for tt in tests:
                     if any(isinstance(a, ast.Attribute) and a.attr in ("is_true", "is_false", "_is_false_") and isinstance(a.value, ast.Name) and a.value.id in tv for a in ast.walk(tt)):
@@ -330,9 +338,9 @@ def pred_once(prog: Program) -> RuleResult:
             # a filter on the truth flag only matters if an argument can arrive flagged false: EP-OPERAND (C01, also run for this
             # property) decides that operand results are never flagged from the truth of their value
             if why is not None and _operands_never_flagged(prog):
-                r.ok(f"{h.short}#every-argument-value", site(h, lp), src(lp.iter)[:80], f"{why}, but no operand result can be flagged false (EP-OPERAND holds): nothing is dropped")
+                r.ok(f"{h.short}#every-argument-value", site(h, scope), src(lp.iter)[:80], f"{why}, but no operand result can be flagged false (EP-OPERAND holds): nothing is dropped")
                 continue
-            r.check(why is None, f"{h.short}#every-argument-value", site(h, lp), src(lp.iter)[:80], "every result of the argument expression is handed on",
+            r.check(why is None, f"{h.short}#every-argument-value", site(h, scope), src(lp.iter)[:80], "every result of the argument expression is handed on",
                     f"{why}: a binding whose argument value is falsy (a nested symbolic call returning 0, False or an empty collection) never reaches the callable, "
                     f"although the concrete call is defined for it")
     if n_loops == 0:
